@@ -110,7 +110,7 @@ class JsonRPCClient:
                 reader=server.stdout,
                 protocol=self.protocol,
                 logger=logger,
-                error_handler=self.report_server_error,
+                error_handler=self._report_server_error,
             )
         )
         notify_exit = asyncio.create_task(self._server_exit())
@@ -129,7 +129,7 @@ class JsonRPCClient:
                 reader=reader,
                 protocol=self.protocol,
                 logger=logger,
-                error_handler=self.report_server_error,
+                error_handler=self._report_server_error,
             )
         )
 
@@ -154,7 +154,7 @@ class JsonRPCClient:
                 websocket=websocket,
                 protocol=self.protocol,
                 logger=logger,
-                error_handler=self.report_server_error,
+                error_handler=self._report_server_error,
             )
         )
         self._async_tasks.extend([connection])
